@@ -40,6 +40,7 @@ structure C11St where
   skipped : Nat := 0
   refusedSeen : Bool := false
   sawSendBodyAfterRefusal : Bool := false
+  gotResponse : Bool := false       -- a response head was handed out in RecvResponse and not yet advanced past
   fail : Option String := none
 
 def oracleC11 (c : TCase) : Verdict :=
@@ -67,7 +68,12 @@ def oracleC11 (c : TCase) : Verdict :=
        | _ => s)
     | "proceed" | "proceed!" =>
       (match t.res with
+       | "none" :: _ =>
+         if s.gotResponse && t.st == "recvResponse" then
+           { s with fail := some "a response was handed out but proceed() yields nothing: the flow is stuck in RecvResponse" }
+         else s
        | "state" :: nxt :: _ =>
+         let s := if nxt == "recvBody" || nxt == "redirect" || nxt == "cleanup" then { s with gotResponse := false } else s
          if nxt == "await100" then { s with awaiting := true } else
          if s.awaiting then
            let s1 := { s with awaiting := false }
@@ -92,8 +98,16 @@ def oracleC11 (c : TCase) : Verdict :=
             else { s with skipped := s.skipped + 1 }
           | _ => { s with fail := some s!"bytes consumed without a response and without a bare 100: {t.raw.take 100}" })
        | "resp" :: _ :: status :: _ =>
-         if s.gaveUp && s.skipped == 0 && status == "100" then { s with fail := some "late 100 returned as the response instead of being skipped" } else s
+         if s.gaveUp && s.skipped == 0 && status == "100" then { s with fail := some "late 100 returned as the response instead of being skipped" }
+         else if status == "100" then s   -- a further interim 100 is handed to the caller; the real response is still to come
+         else { s with gotResponse := true }
        | _ => s)
+    | "canproceed" =>
+      -- "in every branch the flow that results is usable to completion": once the response head has been
+      -- handed out, the receive state must be ready to advance
+      if s.gotResponse && t.st == "recvResponse" && t.res == ["bool", "false"] then
+        { s with fail := some "a response was handed out but the flow cannot advance past RecvResponse" }
+      else s
     | "close?" =>
       if s.refusedSeen && t.res == ["bool", "false"] then { s with fail := some "refused Expect: 100-continue but the connection is offered for reuse" } else s
     | _ => s) ({} : C11St)
